@@ -51,6 +51,20 @@ DesignInv(vt) ==
   /\ Len(t.dirty) = t.rows
   /\ t.buf.cols = t.cols /\ t.buf.rows = t.rows
   /\ \A i \in 1..Len(t.tabs) : t.tabs[i] < t.cols /\ t.tabs[i] > 0 /\ (i > 1 => t.tabs[i - 1] < t.tabs[i])
+(* The domain on which the specification's operators are total: a logged state  *)
+(* outside it (a cursor below the screen, margins beyond the screen, ...) is    *)
+(* reported (geometry: C02; hidden structure: drift) together with the step     *)
+(* that produced it, and the terminal is not judged any further - except that a *)
+(* later panic still counts.                                                    *)
+Sane(vt) ==
+  LET t == vt.t  o == t.other IN
+  /\ GeomOK(vt)
+  /\ t.top >= 0 /\ t.top <= t.bottom /\ t.bottom < t.rows
+  /\ Len(t.dirty) = t.rows
+  /\ t.buf.cols = t.cols /\ t.buf.rows = t.rows
+  /\ o.cols >= 1 /\ o.rows >= 1 /\ Len(o.lines) >= o.rows
+  /\ \A i \in 1..Len(o.lines) : Len(o.lines[i].c) = o.cols
+  /\ \A i \in 1..Len(t.tabs) : t.tabs[i] < t.cols /\ t.tabs[i] >= 0
 (* "col = cols only as the wrap-pending position reached by printing in the     *)
 (* last column with auto-wrap on": a step that raises pw must contain a Print   *)
 (* or Rep, and auto-wrap must have been on at some point of the step.           *)
@@ -138,6 +152,17 @@ LogicalLines(lines) ==
                    IF lines[k].w THEN <<acc[1], cur>> ELSE <<Append(acc[1], cur), <<>>>>
       r == FoldLeft(F, <<<<>>, <<>>>>, Iota(Len(lines)))
   IN IF r[2] # <<>> THEN Append(r[1], r[2]) ELSE r[1]
+(* the characters of the logical lines, trailing spaces dropped whatever their pen *)
+CharText(lines) ==
+  LET L == LogicalLines(lines) IN
+  [i \in 1..Len(L) |-> LET last == CHOOSE n \in 0..Len(L[i]) : (n = 0 \/ L[i][n][1] # 32) /\ \A k \in (n + 1)..Len(L[i]) : L[i][k][1] = 32
+                       IN [k \in 1..last |-> L[i][k][1]]]
+(* two buffers with the same characters in the same logical lines whose cells     *)
+(* nevertheless differ: some cell reports another pen (C08), or a blank cell that *)
+(* carried a pen is gone                                                           *)
+PenDivergence(la, lb) ==
+  /\ CharText(la) = CharText(lb)
+  /\ LET A == LogicalLines(la)  B == LogicalLines(lb) IN [i \in 1..Len(A) |-> TrimCells(A[i])] # [i \in 1..Len(B) |-> TrimCells(B[i])]
 (* the cursor's place in the logical text, computed POSITIONALLY: <<index of its  *)
 (* logical line, offset within it>>; a wrap-pending cursor is logically after the *)
 (* last character of its row                                                      *)
